@@ -117,11 +117,17 @@ class TagAnalysis:
             if token.kind == TOKEN_TAG and token.value.startswith("end")
         }
 
-        # Infer which tags are block tags. This may or may not match what the
-        # environment's tag register believes are block tags.
-        block_tags = {tag[3:] for tag in end_tags} | {
-            tag.name for tag in env.tags.values() if tag.block
+        # We use this to find unknown "end" tags.
+        registered_end_blocks = {
+            tag.end for tag in env.tags.values() if tag.block and tag.end
         }
+
+        # Infer which tags are block tags. This may or may not match what the
+        # environment's tag register believes are block tags. The end tag of a
+        # registered block is not a block itself, whatever `endend...` tags say.
+        block_tags = {
+            tag[3:] for tag in end_tags if tag[3:] not in registered_end_blocks
+        } | {tag.name for tag in env.tags.values() if tag.block}
 
         # Registered tags. "break" and "continue" are a special case. Template content,
         # output statements and illegal tags are registered under the names of their
@@ -135,11 +141,6 @@ class TagAnalysis:
 
         # Registered inline tags. We use this to find erroneous "end" tags.
         inline_tags = {tag.name for tag in env.tags.values() if not tag.block}
-
-        # We use this to find unknown "end" tags.
-        registered_end_blocks = {
-            tag.end for tag in env.tags.values() if tag.block and tag.end
-        }
 
         for token in tokens:
             if token.kind != TOKEN_TAG:
